@@ -167,8 +167,28 @@ def _child(main_mod, root, cwd, argv, timeout_s, env, trace_hook):
         os._exit(97)
 
 
+CROSSCHECK_EVERY = int(os.environ.get('VERIF_CROSSCHECK_EVERY', '150'))
+CROSSCHECKS = 0
+_calls = 0
+
+
 def run_forked(argv, files, cwd='.', timeout_s=10, env=None, trace_hook=None, keep=False) -> Result:
-    """files: {relative path: str|bytes} written into a fresh scratch directory before the run."""
+    """files: {relative path: str|bytes} written into a fresh scratch directory before the run.
+    Every CROSSCHECK_EVERY-th call is repeated in a genuine interpreter process and must be observably identical
+    (faithfulness of the fork shortcut); a disagreement is a harness error, never a verdict."""
+    global _calls, CROSSCHECKS
+    res = _run_forked(argv, files, cwd, timeout_s, env, trace_hook, keep)
+    _calls += 1
+    if CROSSCHECK_EVERY and trace_hook is None and _calls % CROSSCHECK_EVERY == 0 and not res.timed_out:
+        ref = run_subprocess(argv, files, cwd=cwd, timeout_s=max(30, timeout_s * 3), env=env)
+        CROSSCHECKS += 1
+        if not same_observable(res, ref):
+            raise HarnessError('fork runner and genuine subprocess disagree: '
+                               f'{res.brief()} vs {ref.brief()} for argv={argv}')
+    return res
+
+
+def _run_forked(argv, files, cwd='.', timeout_s=10, env=None, trace_hook=None, keep=False) -> Result:
     main_mod = _import_target()
     root = tempfile.mkdtemp(prefix='bvf-', dir=scratch_root())
     try:
